@@ -31,16 +31,18 @@ from mc.explore import Chooser, dfs_choices
 from mc.pool import pmap
 from mc.stats import Stats
 
-MARKERS = ("a", "e", "fwd", "ins", "m", "reg", "ereg", "addarg", "rui", "rui2", "rauw", "eo", "victim", "pure", "c")
+MARKERS = ("a", "e", "fwd", "ins", "insh", "m", "reg", "ereg", "addarg", "rui", "rui2", "rauw", "eo", "victim", "pure", "c")
 # (needs_operand, n_results, has_region)
 SHAPE = {
     "a": (False, 1, False), "b": (False, 1, False), "c": (False, 1, False), "e": (False, 1, False),
     "fwd": (True, 1, False), "ins": (False, 1, False), "m": (False, 1, False), "reg": (False, 0, True),
     "ereg": (False, 0, True), "addarg": (False, 0, True), "rui": (True, 1, False), "eo": (False, 0, False),
     "victim": (False, 1, False), "pure": (False, 1, False),
-    "rui2": (True, 1, False), "rauw": (True, 1, False),
+    "rui2": (True, 1, False), "rauw": (True, 1, False), "insh": (False, 1, False),
 }
-NESTED_BODIES = ((("a", None),), (("m", None), ("e", None)))   # bodies placed inside region-carrying markers
+# bodies placed inside region-carrying markers; an entry (marker, inner) with inner != None is itself an op with a
+# region holding the inner ops, so erasing the outer op leaves GRANDCHILDREN pending in the worklist
+NESTED_BODIES = ((("a", None),), (("m", None), ("e", None)), (("c", (("a", None), ("m", None))),))
 
 
 # ------------------------------------------------------------------ seeds
@@ -78,9 +80,13 @@ def build(desc):
         regions = []
         if has_reg:
             body = []
-            for (nmk, _x) in NESTED_BODIES[b]:
+            for (nmk, inner) in NESTED_BODIES[b]:
                 # nested ops use the most recent outer value when there is one (values used from an enclosing region)
-                body.append(TestOp(operands=vals[-1:] if vals else [], result_types=[i32], attributes={"k": StringAttr(nmk)}))
+                inner_regions = []
+                if inner is not None:
+                    inner_regions = [Region([Block([TestOp(result_types=[i32], attributes={"k": StringAttr(imk)}) for (imk, _y) in inner])])]
+                body.append(TestOp(operands=vals[-1:] if vals else [], result_types=[i32], attributes={"k": StringAttr(nmk)},
+                                   regions=inner_regions))
             regions = [Region([Block(body)])]
         cls = TestPureOp if mk == "pure" else TestOp
         op = cls(operands=operands, result_types=[i32] * nres, attributes={"k": StringAttr(mk)}, regions=regions)
@@ -181,6 +187,19 @@ def make_patterns():
             expect("modification", op)
             rewriter.notify_op_modified(op)
 
+    class InsertWithNameHint(RewritePattern):
+        """insertion made while the rewriter carries a name hint (a separate code path in Builder.insert)"""
+        def match_and_rewrite(self, op, rewriter):
+            if marker(op) != "insh":
+                return
+            new = _mk("a")
+            expect("insertion", new)
+            rewriter.name_hint = "hinted"
+            rewriter.insert(new, InsertPoint.before(op))
+            _set(op, "c")
+            expect("modification", op)
+            rewriter.notify_op_modified(op)
+
     class Modify(RewritePattern):
         def match_and_rewrite(self, op, rewriter):
             if marker(op) != "m":
@@ -255,7 +274,7 @@ def make_patterns():
             expect("modification", op)
             rewriter.notify_op_modified(op)
 
-    return [Replace("a", "b"), Replace("b", "c"), EraseUnused(), Forward(), InsertThenMark(), Modify(), InlineRegion(),
+    return [Replace("a", "b"), Replace("b", "c"), EraseUnused(), Forward(), InsertThenMark(), InsertWithNameHint(), Modify(), InlineRegion(),
             EraseWithRegion(), AddArg(), ReplaceUsesIf(), ReplaceUsesIfOnly(), ReplaceAllUsesOnly(), EraseOther()]
 
 
@@ -283,7 +302,8 @@ def run_once(desc, cfg, ch: Chooser):
     global REC
     REC = Rec()
     rec = REC
-    walk_reverse, regions_first, recursive, rev_patterns, dce = cfg
+    walk_reverse, regions_first, recursive, rev_patterns, dce = cfg[:5]
+    post_walk = len(cfg) > 5 and cfg[5]
     module = build(desc)
     region = module.body
     pats = make_patterns()
@@ -321,8 +341,20 @@ def run_once(desc, cfg, ch: Chooser):
         operation_modification_handler=[lambda op: rec.events.append(("modification", id(op)))],
         operation_replacement_handler=[lambda op, new: rec.events.append(("replacement", id(op)))],
     )
+    def post_walk_hook(reg, lst) -> bool:
+        """post_walk_func option: erases unused 'victim' ops directly (as canonicalize's region_dce hook does) and
+        reports whether it changed anything"""
+        from xdsl.rewriter import Rewriter
+        changed = False
+        for o in list(reg.walk()):
+            if marker(o) == "victim" and o.parent is not None and all(r.first_use is None for r in o.results):
+                Rewriter.erase_op(o)
+                changed = True
+        return changed
+
     walker = PatternRewriteWalker(Checked(), walk_regions_first=regions_first, apply_recursively=recursive,
-                                  walk_reverse=walk_reverse, listener=listener)
+                                  walk_reverse=walk_reverse, listener=listener,
+                                  post_walk_func=post_walk_hook if post_walk else None)
 
     MISSING = wl_mod._MISSING
     orig_pop = wl_mod.Worklist.pop
@@ -383,6 +415,8 @@ def run_once(desc, cfg, ch: Chooser):
             _FIX_CACHE[key] = res
         if res:
             problems.append(("not-a-fixpoint", res))
+        if post_walk and any(marker(o) == "victim" and all(r.first_use is None for r in o.results) for o in region.walk()):
+            problems.append(("not-a-fixpoint", "after the walker returned, the post-walk hook would still change the IR"))
     return problems, rec, (flag, after != before)
 
 
@@ -410,7 +444,7 @@ def _shard(arg) -> Stats:
                 st.transitions += len(ch.taken)
                 outcomes.add(fl)
                 for sig, what in problems:
-                    st.violate(f"C11|{sig}", what, {"seed": desc, "config": dict(zip(("walk_reverse", "regions_first", "recursive", "reversed_patterns", "dce"), cfg)),
+                    st.violate(f"C11|{sig}", what, {"seed": desc, "config": dict(zip(("walk_reverse", "regions_first", "recursive", "reversed_patterns", "dce", "post_walk_func"), tuple(cfg) + (False,))),
                                                    "schedule": list(ch.taken)})
             n, capped = dfs_choices(run, on_exec, bound, max_executions=cap)
             if capped:
@@ -429,10 +463,11 @@ def _shard(arg) -> Stats:
 def run(ctx):
     n = 64
     default_cfgs = [c for c in CONFIGS_ALL if c[3] is False]      # 16: all walker configs x dce, pattern order forward
+    post_cfgs = [c + (True,) for c in CONFIGS_ALL if c[3] is False]
     if ctx.quick:
-        plans = [(2, CONFIGS_ALL, 1, 400), (3, [(False, False, True, False, True)], 0, 50)]
+        plans = [(2, CONFIGS_ALL, 1, 400), (2, post_cfgs, 0, 50), (3, [(False, False, True, False, True)], 0, 50)]
     else:
-        plans = [(2, CONFIGS_ALL, 3, 5000), (3, default_cfgs, 2, 2000)]
+        plans = [(2, CONFIGS_ALL, 3, 5000), (2, post_cfgs, 2, 2000), (3, default_cfgs, 2, 2000)]
     for max_ops, cfgs, bound, cap in plans:
         for _, st in pmap(_shard, [(max_ops, cfgs, bound, i, n, ctx.seed, cap) for i in range(n)]):
             ctx.merge(st)
@@ -449,6 +484,6 @@ def replay(rep) -> bool:
         return tuple(tup(y) for y in x) if isinstance(x, list) else x
     w = rep["witness"]
     cfgd = w["config"]
-    cfg = (cfgd["walk_reverse"], cfgd["regions_first"], cfgd["recursive"], cfgd["reversed_patterns"], cfgd["dce"])
+    cfg = (cfgd["walk_reverse"], cfgd["regions_first"], cfgd["recursive"], cfgd["reversed_patterns"], cfgd["dce"], cfgd.get("post_walk_func", False))
     problems, _, _ = run_once(tup(w["seed"]), cfg, Chooser(w["schedule"]))
     return not any(f"C11|{s}" == rep["signature"] for s, _ in problems)
